@@ -433,6 +433,9 @@ pub fn replay_case(
     let footer_of = |n: &str| inst.footer(n).unwrap_or("").to_string();
     let ctx = EditCtx { layout: &layout, other_token: &other_token, footer_of: &footer_of, ecdsa: pr.v == 3 && pr.public };
 
+    if std::env::var("PV_DEBUG").is_ok() {
+        eprintln!("case {:?} edits {:?} toklen {}", case.mint.pr, case.edits.iter().map(|e| e.k.clone()).collect::<Vec<_>>(), tok.len());
+    }
     // expand the abstract edits to concrete mutated tokens
     let mut toks: Vec<String> = vec![tok.clone()];
     for (i, e) in case.edits.iter().enumerate() {
